@@ -268,15 +268,7 @@ def describe(v) -> str:
     return repr(v)
 
 
-def _value_bool_to_ite(t: T) -> T:
-    """`a and b` used as a value is `b if a else a`; `a or b` is `a if a else b`."""
-    if t.op == "bool" and len(t.a[1]) >= 2:
-        first, rest = t.a[1][0], t.a[1][1:]
-        tail = _value_bool_to_ite(rest[0] if len(rest) == 1 else T("bool", (t.a[0], rest)))
-        return T("ite", (first, tail, first)) if t.a[0] == "and" else T("ite", (first, first, tail))
-    if t.op == "ite":
-        return T("ite", (t.a[0], _value_bool_to_ite(t.a[1]), _value_bool_to_ite(t.a[2])))
-    return t
+_value_bool_to_ite = normal.value_bool_to_ite
 
 
 def kevent_fields(repo: Repo):
